@@ -371,7 +371,19 @@ func (e *Engine) callFunction(st *State, fr *Frame, x *ssa.Call, callee *ssa.Fun
 		return nil, false
 	}
 	if !inline {
-		inModule := callee.Pkg != nil && (callee.Pkg.Pkg.Path() == ModPath || strings.HasPrefix(callee.Pkg.Pkg.Path(), ModPath+"/"))
+		pkgPath := ""
+		switch {
+		case callee.Pkg != nil:
+			pkgPath = callee.Pkg.Pkg.Path()
+		case callee.Origin() != nil && callee.Origin().Pkg != nil: // instantiation of a generic function
+			pkgPath = callee.Origin().Pkg.Pkg.Path()
+		case callee.Object() != nil && callee.Object().Pkg() != nil:
+			pkgPath = callee.Object().Pkg().Path()
+		}
+		inModule := pkgPath == ModPath || strings.HasPrefix(pkgPath, ModPath+"/")
+		if pkgPath == "" {
+			panic(unsupported("call to " + callee.String() + " (no package information, no contract)"))
+		}
 		switch {
 		case inModule && len(callee.Blocks) > 0 && len(e.info(callee).byOrd) == 0 && len(st.frames) < 5 && !e.onStack(st, callee):
 			// a helper of the repository without a contract and without loops is executed in place
@@ -919,6 +931,17 @@ func (e *Engine) applyContractSig(st *State, fr *Frame, x *ssa.Call, name string
 			env[spec.Results[i]] = rv
 		}
 	}
+	for _, w := range spec.Witness {
+		wt := e.fresh(name+".w_"+w.Name, IntS) // existential witness
+		env[w.Name] = VInt{wt}
+		if st.witnessOf == nil {
+			st.witnessOf = map[string]*Term{}
+		}
+		st.witnessOf[name+"."+w.Name] = wt
+		if i := strings.LastIndex(name, ")."); i >= 0 {
+			st.witnessOf[name[i+2:]+"."+w.Name] = wt
+		}
+	}
 	if atomicRecv != nil {
 		// ... and related to the state after it only by the atomic clauses
 		for _, o := range atomicObjs {
@@ -942,17 +965,6 @@ func (e *Engine) applyContractSig(st *State, fr *Frame, x *ssa.Call, name string
 				}
 				e.oblige(st, "lockinv@call", lbl+"."+shortName(name), ord, ic.evalBool(li.E), "invariant of the guarded state holds after the atomic step "+name+": "+li.Text, pos)
 			}
-		}
-	}
-	for _, w := range spec.Witness {
-		wt := e.fresh(name+".w_"+w.Name, IntS) // existential witness
-		env[w.Name] = VInt{wt}
-		if st.witnessOf == nil {
-			st.witnessOf = map[string]*Term{}
-		}
-		st.witnessOf[name+"."+w.Name] = wt
-		if i := strings.LastIndex(name, ")."); i >= 0 {
-			st.witnessOf[name[i+2:]+"."+w.Name] = wt
 		}
 	}
 	post := &specCtx{e: e, st: st, env: env, heaps: st.heaps, oldHeaps: oldHeaps, pkg: pre.pkg, oldAlloc: oldAlloc, iters: e.freshIters(st, name)}
